@@ -165,7 +165,13 @@ class LinRecorder:
         self.emit({"ev": "update_ngram", "s": s + 1, "keys": [kb(k) for k in keys], "n": n})
 
     def merge(self, s, t):
-        self.slots[s].merge(self.slots[t])
+        try:
+            self.slots[s].merge(self.slots[t])
+        except TypeError as exc:
+            # same-shaped sketches must merge; after a faulty load they may not (judged by C10/C15)
+            if impl.STRICT_PERSIST:
+                self.emit({"ev": "merge_refused", "s": s + 1, "t": t + 1, "exc": repr(exc)[:200]})
+            return
         self.emit({"ev": "merge", "s": s + 1, "t": t + 1})
 
     def saveload(self, s, t, how=0):
